@@ -260,6 +260,46 @@ def _neighbour_vector(fn, e):
     return base, offs, extent
 
 
+def _rule_patch_radius(check, mod, fns) -> None:
+    """R7: the upsampled patch has half-width ceil(1.5·up) in every routine that builds it or re-centres a peak found in it.  The same quantity rounded differently
+    (int(1.5·up), floor, round, //) differs from it for odd factors by one sample: identical images are then measured at ±1/up."""
+    n = 0
+    for label, fn in fns:
+        for x in ast.walk(fn):
+            if not (isinstance(x, ast.BinOp) and isinstance(x.op, ast.Mult)):
+                continue
+            ops = (x.left, x.right)
+
+            def is15(e_):
+                if isinstance(e_, ast.Constant) and e_.value == 1.5:
+                    return True
+                if isinstance(e_, ast.Name):
+                    ds_ = [d for d in definitions(fn, e_.id) if isinstance(d, ast.AST)]
+                    return len(ds_) == 1 and isinstance(ds_[0], ast.Constant) and ds_[0].value == 1.5
+                return False
+            if not any(is15(o) for o in ops) or not any("up" in unparse(o).lower() for o in ops if not is15(o)):
+                continue
+            n += 1
+            # climb through value-preserving wrappers to the rounding that is applied
+            cur, par = x, getattr(x, "_parent", None)
+            rounding = None
+            while par is not None:
+                if isinstance(par, ast.Call) and cur in par.args:
+                    nm = (call_name(par) or "").split(".")[-1]
+                    if nm in ("tensor", "float", "asarray", "array", "as_tensor"):
+                        cur, par = par, getattr(par, "_parent", None)
+                        continue
+                    rounding = nm
+                elif isinstance(par, ast.BinOp) and isinstance(par.op, ast.FloorDiv) and par.left is cur:
+                    rounding = "//"
+                break
+            check.decide(rounding == "ceil", "C13-R7", f"{label}: the patch half-width `{unparse(x)}` is rounded up (ceil), as in every other routine", str(rounding), mod.line(x),
+                         definite=rounding in ("int", "floor", "round", "trunc", "//", "rint"),
+                         fail_detail=f"`{unparse(getattr(cur, '_parent', cur))[:60]}` rounds 1.5·up with `{rounding}` where the patch is built with ceil: for odd factors the two differ by one "
+                                     f"sample — the local peak is re-centred by the wrong index and identical images return a shift of ±1/up")
+    check.floor("1.5·up patch half-width expressions", n, 3)
+
+
 def _rule_peak_pipeline(check, mod, ccs, ali, ups, kinds=None) -> None:
     """R6: the value-level skeleton of the estimators, decided by small normal forms (robust to algebraic re-spelling):
     peak selection is an arg-MAXIMUM; the three refinement samples are the peak's −1/0/+1 neighbours (wrapped by the extent of their own axis
@@ -731,6 +771,7 @@ def run(check, repo: Repo) -> None:
     if isinstance(u0, Comp) and isinstance(u1, Comp):
         check.decide(u0.axis == ROW and u1.axis == COL, "C13-R3", "upsampled_correlation_torch: the flat peak index is unravelled row-major into (row, col)", f"{u0} {u1}", mod.line(ups),
                      definite=True, fail_detail=f"xySubShift0 is {u0}, xySubShift1 is {u1}")
+    _rule_patch_radius(check, mod, (("cross_correlation_shift", ccs), ("dft_upsample", dnp), ("upsampled_correlation_torch", ups), ("dftUpsample_torch", dto)))
     _rule_peak_pipeline(check, mod, ccs, ali, ups, kinds={"cross_correlation_shift": k_np.env, "upsampled_correlation_torch": k_up.env})
     # no cross-call state: a memoised helper must key its cache on every parameter the cached value depends on
     _rule_memo(check, repo, mod)
@@ -899,3 +940,4 @@ MANIFEST = {
 }
 MANIFEST["text"] += ' Also: memoised helpers key their cache on every parameter the cached value depends on and no helper accumulates module-level state (R5); kinded-axis analysis covers 1-D profiles: an offset estimated from samples along one axis never corrects a position on the other axis.'
 MANIFEST["text"] += ' R6 (peak pipeline): peak selection is an arg-maximum; the coarse refinement samples are the −1/0/+1 neighbours in this order, wrapped by a modulo whose first operand is base+offset; the 3×3 patch is [p−1, p+2) on both axes with the row index on axis 0; each coordinate adds the parabolic offset measured along its own axis; the upsampled estimate is coarse + (local peak − centre + δ)/up in both twins — all decided on rational normal forms, so algebraic re-spelling does not matter.'
+MANIFEST["text"] += " R7: the upsampled patch half-width 1.5·up is rounded with ceil in every routine that builds the patch or re-centres a peak in it (int / floor / round / // differ by one sample for odd factors)."
